@@ -32,7 +32,10 @@ ASSUMPTIONS = [
 TOLERANCES = {"run": 1e-8, "run_screening": 1e-5, "si": 1e-9, "flux": 1e-9}
 LU = {"um": 1e-6, "nm": 1e-9, "mm": 1e-3}
 FU = {"mT": 1e-3, "uT": 1e-6, "T": 1.0}
-SYS = {"um": ("um", "mT", "uA"), "nm": ("nm", "uT", "nA"), "mm": ("mm", "T", "mA")}
+SYS = {"um": ("um", "mT", "uA"), "nm": ("nm", "uT", "nA"), "mm": ("mm", "T", "mA"),
+       # mismatched prefixes (current_units / length_units is not 1 A/m)
+       "nm_uA": ("nm", "uT", "uA"), "um_nA": ("um", "mT", "nA"), "mm_uA": ("mm", "T", "uA")}
+MULT = {"um": 1.0, "nm": 1e3, "mm": 1e-3, "mT": 1.0, "uT": 1e3, "T": 1e-3, "uA": 1.0, "nA": 1e3, "mA": 1e-3}
 TERMS = {"G1": ["source", "drain"], "G2": ["source", "drain"], "G3": ["left", "right", "stem"]}
 
 
@@ -62,6 +65,9 @@ def cases(tier, seed):
     if quick:
         for u in ("nm", "mm"):
             out.append(dict(fam="run", dev="G1", drive="both", screening=True, units=u))
+    # unit systems with mismatched prefixes
+    for d, drive, u in itertools.product(devs[:1] if quick else devs, ("both", "loop"), ("nm_uA", "um_nA", "mm_uA")):
+        out.append(dict(fam="run", dev=d, drive=drive, screening=False, units=u))
     # a z-dependent source and a film away from z = 0
     for d, drive, u in itertools.product(devs[:1] if quick else devs, ("loop", "loop_t"), ("nm", "mm")):
         out.append(dict(fam="run", dev=d, drive=drive, screening=False, units=u))
@@ -83,31 +89,31 @@ def _problem(dev_name, drive, units, screening):
     lam = 1.0 if screening else 2.0
     ref = zoo.device(dev_name, lam=lam)
     lu, fu, cu = SYS[units]
-    dev = ref if units == "um" else zoo.with_mesh_of(ref, dev_name, units, lam=lam)
-    s = {"um": 1.0, "nm": 1e3, "mm": 1e-3}[units]  # value multiplier for both field and current
+    dev = ref if lu == "um" else zoo.with_mesh_of(ref, dev_name, lu, lam=lam)
+    sl, sf, sc = MULT[lu], MULT[fu], MULT[cu]  # value multipliers of lengths, fields and currents
     kw = {}
     if drive in ("ramp_slow", "ramp_fast"):
         # coordinates arrive in the device's length units, the result is in field_units * length_units
-        kw["applied_vector_potential"] = tdgl.Parameter(_ramp_field, time_dependent=True, B=0.4 * s, rate=(0.2 if drive == "ramp_slow" else 5.0))
+        kw["applied_vector_potential"] = tdgl.Parameter(_ramp_field, time_dependent=True, B=0.4 * sf, rate=(0.2 if drive == "ramp_slow" else 5.0))
     if drive == "callable_current":
         names = TERMS[dev_name]
         base = {2: [0.8, -0.8], 3: [0.3, 0.5, -0.8]}[len(names)]
-        kw["applied_vector_potential"] = 0.2 * s
-        kw["terminal_currents"] = _CurrentRamp(names, [b * s for b in base])
+        kw["applied_vector_potential"] = 0.2 * sf
+        kw["terminal_currents"] = _CurrentRamp(names, [b * sc for b in base])
     if drive in ("loop", "loop_t"):
         # a z-dependent source (current loop above the film) and a film that does not sit at z = 0: heights are lengths too
         from tdgl.sources import CurrentLoop, LinearRamp
 
         dev = dev.copy()
-        dev.layer.z0 = 0.4 * s
-        loop = CurrentLoop(current=4000.0 * s, radius=1.5 * s, center=(0.3 * s, -0.2 * s, 1.0 * s), current_units=cu, field_units=fu, length_units=lu)
+        dev.layer.z0 = 0.4 * sl
+        loop = CurrentLoop(current=4000.0 * sc, radius=1.5 * sl, center=(0.3 * sl, -0.2 * sl, 1.0 * sl), current_units=cu, field_units=fu, length_units=lu)
         kw["applied_vector_potential"] = loop if drive == "loop" else LinearRamp(tmin=0.0, tmax=0.1, initial=0.5, final=1.0) * loop
     if drive in ("field", "both"):
-        kw["applied_vector_potential"] = 0.4 * s
+        kw["applied_vector_potential"] = 0.4 * sf
     if drive in ("current", "both"):
         names = TERMS[dev_name]
         base = {2: [0.8, -0.8], 3: [0.3, 0.5, -0.8]}[len(names)]
-        kw["terminal_currents"] = {n: b * s for n, b in zip(names, base)}
+        kw["terminal_currents"] = {n: b * sc for n, b in zip(names, base)}
     return dev, kw, (lu, fu, cu)
 
 
@@ -135,6 +141,7 @@ def run_run(case):
     nsteps = 8
     out = {}
     refused = {}
+    fields = {}
     for tag, units in (("a", "um"), ("b", case["units"])):
         dev, kw, (lu, fu, cu) = _problem(case["dev"], case["drive"], units, case["screening"])
         opts = tdgl.SolverOptions(solve_time=nsteps * dt, dt_init=dt, dt_max=dt, adaptive=False, save_every=1, output_file=f"{tag}.h5",
@@ -156,6 +163,13 @@ def run_run(case):
         for i in range(len(frames)):
             sol.solve_step = i
             K.append(sol.current_density.to("A / m").magnitude)
+        # ... then the field of the sheet currents above the film (evaluated twice), and the current density read again afterwards
+        sol.solve_step = len(frames) - 1
+        P = np.array([[0.4, -0.3, 0.9], [-1.1, 0.6, 1.4], [2.0, 0.2, -0.8]]) * MULT[lu]
+        Bz1 = sol.field_at_position(P, vector=True, units="T", with_units=False)
+        Bz2 = sol.field_at_position(P, vector=True, units="T", with_units=False)
+        K.append(sol.current_density.to("A / m").magnitude)
+        fields[tag] = (np.asarray(Bz1, float), np.asarray(Bz2, float))
         out[tag] = (dev, frames, K, (lu, fu, cu))
     if refused["a"] or refused["b"]:
         # the documented refusal must not depend on the unit system either: same step in both statements
@@ -183,6 +197,15 @@ def run_run(case):
     res.residual("current_density_between_systems", e_phys)
     if e_phys > tol_run:
         res.violate("physical-current-density-depends-on-units", drive=case["drive"], units=case["units"], detail={"case": case, "rel": e_phys})
+    if "a" in fields and "b" in fields:
+        bmax = max(float(np.abs(fields["a"][0]).max()), 1e-300)
+        e_rep = max(float(np.abs(fields[t][0] - fields[t][1]).max()) for t in ("a", "b")) / bmax
+        e_sys = float(np.abs(fields["a"][0] - fields["b"][0]).max()) / bmax
+        res.residual("field_between_systems", e_sys)
+        if e_rep > 1e-12:
+            res.violate("field-evaluation-not-repeatable", units=case["units"], detail={"case": case, "rel": e_rep})
+        if e_sys > tol_run:
+            res.violate("physical-field-depends-on-units", drive=case["drive"], units=case["units"], detail={"case": case, "rel": e_sys})
     # ... and against the SI unit model, in the restated system
     L = devb.layer
     U = Units(L.coherence_length, L.london_lambda, L.thickness, lu, fu, cu)
